@@ -105,5 +105,6 @@ func (m *Memberlist) getBroadcasts(overhead, limit int) [][]byte {
 			}
 		}
 	}
+	m.vt("packed", overhead, limit, toSend)
 	return toSend
 }
